@@ -139,11 +139,14 @@ theorem extractTop_parse {v : Bytes} {pf : List (Bytes × Bytes)} (h : extractTo
 
 /-! ### one op -/
 
-/-- REMOVE_VAL ops carry a scalar value (the fragment the refinement theorem covers) -/
-def RemoveValScalar (op : Op) : Prop := op.kind = .removeVal → ScalarVal op.value
+/-- for the unrepaired REMOVE_VAL (scalar elements only): REMOVE_VAL ops carry a scalar value — the
+    fragment the refinement covers there; vacuous for the repaired rule -/
+def RemoveValScalar (cfg : Cfg) (op : Op) : Prop :=
+  op.kind = .removeVal → cfg.rmvalCanon = false → ScalarVal op.value
 
 theorem applyOp_refines {cfg : Cfg} (hv : cfg.validatesValues = true) {N : Nat} {t t' : Node} {op : Op}
-    {segs : List Seg} (ht : WfB N t) (hrv : RemoveValScalar op) (h : applyOp cfg t op segs = .ok t') :
+    {segs : List Seg} (hN : N < 2 ^ 32) (ht : WfB N t) (hrv : RemoveValScalar cfg op)
+    (h : applyOp cfg t op segs = .ok t') :
     refOpSegs (norm t) op segs = .ok (norm t') := by
   unfold applyOp at h
   unfold refOpSegs decode
@@ -212,7 +215,7 @@ theorem applyOp_refines {cfg : Cfg} (hv : cfg.validatesValues = true) {N : Nat} 
     · cases h
     · rename_i hne
       rw [if_neg hne]
-      exact walk_refines (sim_removeVal (hrv hk)) segs t t' ht h
+      exact walk_refines (sim_removeVal (rmVal_norm hN _ _ (fun hc => hrv hk hc))) segs t t' ht h
   case merge =>
     split at h
     · cases h
@@ -227,7 +230,7 @@ theorem applyOp_refines {cfg : Cfg} (hv : cfg.validatesValues = true) {N : Nat} 
   case unknown => cases h
 
 theorem stepOp_refines {cfg : Cfg} (hv : cfg.validatesValues = true) {N : Nat} {t t' : Node} {op : Op}
-    (ht : WfB N t) (hrv : RemoveValScalar op) (h : stepOp cfg t op = .ok t') :
+    (hN : N < 2 ^ 32) (ht : WfB N t) (hrv : RemoveValScalar cfg op) (h : stepOp cfg t op = .ok t') :
     refOp (norm t) op = .ok (norm t') := by
   unfold stepOp at h
   unfold refOp
@@ -235,24 +238,25 @@ theorem stepOp_refines {cfg : Cfg} (hv : cfg.validatesValues = true) {N : Nat} {
   · cases h
   · rename_i segs hsegs
     rw [hsegs]; simp only
-    exact applyOp_refines hv ht hrv h
+    exact applyOp_refines hv hN ht hrv h
 
 theorem applyOps_refines {cfg : Cfg} (hv : cfg.validatesValues = true) :
     ∀ (ops : List Op) (N : Nat) (t t' : Node), (∀ op ∈ ops, op.path.length < 2 ^ 32) →
-      (∀ op ∈ ops, RemoveValScalar op) → WfB N t → applyOps cfg t ops = .ok t' →
-      refOps (norm t) ops = .ok (norm t')
-  | [], N, t, t', _, _, _, h => by
+      (∀ op ∈ ops, RemoveValScalar cfg op) → N + totalGrowth cfg ops < 2 ^ 32 → WfB N t →
+      applyOps cfg t ops = .ok t' → refOps (norm t) ops = .ok (norm t')
+  | [], N, t, t', _, _, _, _, h => by
     rw [applyOps] at h; injection h with h; subst h; rw [refOps]
-  | op :: rest, N, t, t', hp, hr, ht, h => by
+  | op :: rest, N, t, t', hp, hr, hsz, ht, h => by
+    rw [totalGrowth] at hsz
     rw [applyOps] at h
     rw [refOps]
     split at h
     · cases h
     · rename_i t1 hstep
-      rw [stepOp_refines hv ht (hr op (by simp)) hstep]; simp only
+      rw [stepOp_refines hv (by omega) ht (hr op (by simp)) hstep]; simp only
       have h1 := stepOp_WfB hv (hp op (by simp)) ht hstep
       exact applyOps_refines hv rest _ t1 t' (fun o ho => hp o (List.mem_cons_of_mem _ ho))
-        (fun o ho => hr o (List.mem_cons_of_mem _ ho)) h1 h
+        (fun o ho => hr o (List.mem_cons_of_mem _ ho)) (by omega) h1 h
 
 /-- A successful patch stores exactly the document the documented semantics give: parsing the
     returned body yields `refOps` of the parsed input body. -/
@@ -260,7 +264,7 @@ theorem applyWithCondition_refines {cfg : Cfg} (hv : cfg.validatesValues = true)
     {body : Bytes} {ops : List Op} {cond : Option Condition} {out : Bytes} {t : Node}
     (hparse : parse body = .ok t)
     (hpaths : ∀ op ∈ ops, op.path.length < 2 ^ 32)
-    (hrv : ∀ op ∈ ops, RemoveValScalar op)
+    (hrv : ∀ op ∈ ops, RemoveValScalar cfg op)
     (hsize : maxCh t + totalGrowth cfg ops < 2 ^ 32)
     (h : applyWithCondition cfg body ops cond = .ok out) :
     ∃ d, refOps t ops = .ok d ∧ parse out = .ok d := by
@@ -275,7 +279,7 @@ theorem applyWithCondition_refines {cfg : Cfg} (hv : cfg.validatesValues = true)
       have hw := parse_wf hparse
       have h0 := wf_WfB t hw.1
       have h1 := applyOps_WfB hv ops _ t t' hpaths h0 hops
-      have h2 := applyOps_refines hv ops _ t t' hpaths hrv h0 hops
+      have h2 := applyOps_refines hv ops _ t t' hpaths hrv hsize h0 hops
       rw [hw.2] at h2
       exact ⟨norm t', h2, serialize_parse (WfB_wf hsize t' h1)⟩
 
